@@ -2414,9 +2414,18 @@ class Head(Expr):
                 )
             partitions = self._partitions
             if is_index_like(self._meta):
-                return BlockwiseHeadIndex(
-                    Partitions(self.frame, partitions), self.n, safe=False
+                frame = BlockwiseHeadIndex(
+                    Partitions(self.frame, partitions), self.n, npartitions, safe=False
                 )
+                if npartitions != 1:
+                    from dask_expr import Repartition
+
+                    # The leading labels of all selected partitions, then of their
+                    # concatenation (as for frames below)
+                    frame = BlockwiseHeadIndex(
+                        Repartition(frame, new_partitions=1), self.n, 1, safe=False
+                    )
+                return frame
 
             safe = True if npartitions == 1 and self.frame.npartitions != 1 else False
             frame = BlockwiseHead(
